@@ -57,6 +57,18 @@ CLAIMED = {
              'soundness are not decided.',
         note=STATIC_NOTE,
         technique='static analysis: HIR effect-schedule extraction + normal-form comparison; MIR must-call'),
+    'C10': dict(
+        text='Decides ONLY the decoder clause: every checked field decoder of the exported fields reaches the modulus comparison of its type, uses its result and '
+             'returns failures (CHECKED table over the call graph, with result liveness). Field arithmetic, constants, towers, square roots and uniform reduction '
+             'are numerical and explicitly not decided by this technique.',
+        note=STATIC_NOTE + ' The claim covers one clause of the property (decoders); the rest is out of reach of static analysis.',
+        technique='static analysis: call-graph CHECKED-decoder rules with result liveness'),
+    'C11': dict(
+        text='Decides ONLY the decoder clause: compressed / uncompressed / raw / GroupEncoding decoders and coordinate constructors of every exported curve reach '
+             'their on-curve, subgroup and canonicity validators, use the results, never unwrap a failed decode, and strictly add validators to their unchecked '
+             'twins. The group law and coordinate-system consistency are numerical and explicitly not decided.',
+        note=STATIC_NOTE + ' The claim covers one clause of the property (decoders); the rest is out of reach of static analysis.',
+        technique='static analysis: call-graph CHECKED-decoder rules, checked/unchecked twin comparison'),
     'C14': dict(
         text='Static rules for the KZG multi-opening: three-way transcript schedule duality (multi_open / multi_prepare / in-circuit multi_prepare), '
              'duplicate-query refusal present in both copies of construct_intermediate_sets and propagated by all callers, and liveness of every value '
